@@ -17,13 +17,15 @@ import (
 // inside a location (e.Tokens.Last.Increment(), e.Names.push()) is a write to
 // that location.
 type Effects struct {
-	p       *Program
-	flat    map[*types.TypeName]bool
-	recvMut map[*types.Func]bool                // methods on non-flat types: writes through the receiver
-	writes  map[*types.Func]map[*types.Var]bool // flat-level functions: locations written
-	unknown map[*types.Func]bool                // passes a coder to a callee that cannot be resolved
-	pure    map[*types.Func]string              // functions summarised as abstract-state preserving, with the rule that justifies it
-	funcs   []*FuncInfo
+	p              *Program
+	flat           map[*types.TypeName]bool
+	recvMut        map[*types.Func]bool // methods on non-flat types: writes through the receiver
+	recvFields     map[*types.Func]map[*types.Var]bool
+	recvFieldsDone map[*types.Func]bool
+	writes         map[*types.Func]map[*types.Var]bool // flat-level functions: locations written
+	unknown        map[*types.Func]bool                // passes a coder to a callee that cannot be resolved
+	pure           map[*types.Func]string              // functions summarised as abstract-state preserving, with the rule that justifies it
+	funcs          []*FuncInfo
 }
 
 var flatTypeNames = []string{"encoderState", "decoderState", "encodeBuffer", "decodeBuffer", "state"}
@@ -559,4 +561,117 @@ func (e *Effects) poisonStore(info *types.Info, lhs ast.Expr, loc *types.Var) bo
 	}
 	_, isIndex := ast.Unparen(lhs).(*ast.IndexExpr)
 	return isIndex
+}
+
+// recvFieldWrites returns the first-level fields of the receiver that method fn
+// may write (directly, through element stores, or through methods it calls on
+// the receiver or on a field of it); nil means "cannot tell / the whole value".
+func (e *Effects) recvFieldWrites(fn *types.Func) map[*types.Var]bool {
+	if e.recvFields == nil {
+		e.recvFields = map[*types.Func]map[*types.Var]bool{}
+		e.recvFieldsDone = map[*types.Func]bool{}
+	}
+	if e.recvFieldsDone[fn] {
+		return e.recvFields[fn]
+	}
+	e.recvFieldsDone[fn] = true
+	e.recvFields[fn] = nil // recursion: unknown
+	f := e.p.FuncOf(fn)
+	sig, _ := fn.Type().(*types.Signature)
+	if f == nil || f.Body() == nil || sig == nil || sig.Recv() == nil {
+		return nil
+	}
+	rv := sig.Recv()
+	info := f.Info()
+	out := map[*types.Var]bool{}
+	unknown := false
+	// fieldOf: the field selected directly on the receiver at the bottom of an lvalue path
+	var fieldOf func(x ast.Expr) (*types.Var, bool)
+	fieldOf = func(x ast.Expr) (*types.Var, bool) {
+		for {
+			x = ast.Unparen(x)
+			switch v := x.(type) {
+			case *ast.Ident:
+				if IdentObj(info, v) == rv {
+					return nil, true // the receiver itself
+				}
+				return nil, false
+			case *ast.SelectorExpr:
+				if IdentObj(info, v.X) == rv {
+					fld := SelField(info, v)
+					return fld, fld != nil
+				}
+				x = v.X
+			case *ast.IndexExpr:
+				x = v.X
+			case *ast.SliceExpr:
+				x = v.X
+			case *ast.StarExpr:
+				x = v.X
+			default:
+				return nil, false
+			}
+		}
+	}
+	note := func(x ast.Expr) {
+		fld, ok := fieldOf(x)
+		if !ok {
+			return
+		}
+		if fld == nil {
+			unknown = true
+			return
+		}
+		out[fld] = true
+	}
+	ast.Inspect(f.Body(), func(n ast.Node) bool {
+		switch s := n.(type) {
+		case *ast.AssignStmt:
+			if s.Tok == token.DEFINE {
+				return true
+			}
+			for _, l := range s.Lhs {
+				if id, isId := ast.Unparen(l).(*ast.Ident); isId && IdentObj(info, id) == rv {
+					continue
+				}
+				note(l)
+			}
+		case *ast.IncDecStmt:
+			note(s.X)
+		case *ast.CallExpr:
+			if IsBuiltin(info, s, "delete") || IsBuiltin(info, s, "copy") || IsBuiltin(info, s, "clear") {
+				if len(s.Args) > 0 {
+					note(s.Args[0])
+				}
+				return true
+			}
+			callee := Callee(info, s)
+			sel, isSel := ast.Unparen(s.Fun).(*ast.SelectorExpr)
+			if callee == nil || !isSel || info.Selections[sel] == nil || !e.recvMut[callee] {
+				return true
+			}
+			fld, ok := fieldOf(sel.X)
+			if !ok {
+				return true
+			}
+			if fld != nil {
+				out[fld] = true
+				return true
+			}
+			sub := e.recvFieldWrites(callee)
+			if sub == nil {
+				unknown = true
+				return true
+			}
+			for k := range sub {
+				out[k] = true
+			}
+		}
+		return true
+	})
+	if unknown {
+		return nil
+	}
+	e.recvFields[fn] = out
+	return out
 }
